@@ -105,6 +105,29 @@ func isClosed(pts []s2.Point) bool {
 	return len(pts) >= 4 && pointE7(pts[0]) == pointE7(pts[len(pts)-1])
 }
 
+// closedByReference is b6's own notion of a closed path (Tags.ClosedPath):
+// the first and the last element refer to the same point feature. A path
+// whose two ends are different points that happen to share a location is an
+// open path to b6 and is not judged as a loop (false alarm found by vp check
+// after corners were moved exactly onto other vertices).
+func closedByReference(f b6.Feature) bool {
+	p, ok := f.(b6.PhysicalFeature)
+	if !ok {
+		return false
+	}
+	closed := false
+	safe(func() string {
+		n := p.GeometryLen()
+		if n < 2 {
+			return ""
+		}
+		first, last := p.Reference(0), p.Reference(n-1)
+		closed = first != nil && last != nil && first.Source().IsValid() && first.Source() == last.Source()
+		return ""
+	})
+	return closed
+}
+
 func validateFeature(w b6.World, f b6.Feature) string {
 	id := f.FeatureID()
 	switch id.Type {
@@ -116,7 +139,7 @@ func validateFeature(w b6.World, f b6.Feature) string {
 		if len(pts) < 2 {
 			return fmt.Sprintf("%s: path with %d point(s)", id, len(pts))
 		}
-		if isClosed(pts) {
+		if isClosed(pts) && closedByReference(f) {
 			ring := pts[:len(pts)-1]
 			for i := range ring {
 				if pointE7(ring[i]) == pointE7(ring[(i+1)%len(ring)]) {
